@@ -693,7 +693,12 @@ func judgeFailure(w *World, cfg *WConfig, netc *WNet, nExplicit int, res *KResul
 				res.Blocked = kf
 				continue
 			}
-			res.Fail(fmt.Sprintf("network faults alone made an endpoint raise a transport error: %s", wErrName(uint64(te.ErrorCode))), "raised by side %d (0 = client): %v", who, err)
+			name := wErrName(uint64(te.ErrorCode))
+			if te.ErrorCode == 1 || te.ErrorCode == 10 {
+				// INTERNAL_ERROR / PROTOCOL_VIOLATION: the message tells the findings apart
+				name += " (" + strings.TrimSpace(stripNums(te.ErrorMessage)) + ")"
+			}
+			res.Fail("network faults alone made an endpoint raise a transport error: "+name, "raised by side %d (0 = client): %v", who, err)
 		case errors.As(err, &ae):
 			if ae.ErrorMessage != "done" && !ae.Remote {
 				res.Fail("unexpected application error", "side %d: %v", side, err)
